@@ -98,8 +98,14 @@ def run_id_range_edge(tier, v):
 
 def run(tier, v):
     run_id_range_edge(tier, v)
-    for name, it in families(tier):
-        cases, dropped = difftree.prefilter(list(it))
+    import c03
+    mixed = c03._interleave(list(spaces.invalid_utf8_files()), [(c, t.encode("utf-8"), l) for c, t, l in spaces.statement_kind_tuples(2)])
+    for name, it in list(families(tier)) + [("trees mixing unreadable (invalid UTF-8) files with readable ones", mixed)]:
+        cases = list(it)
+        if cases and isinstance(cases[0][1], bytes):
+            dropped = 0
+        else:
+            cases, dropped = difftree.prefilter(cases)
         n = 0
         readback = []
         for tr in difftree.run_trees(cases, steps=4, use_cache=True):
